@@ -13,7 +13,7 @@
 (*    {"tx": [bytes...], "block": [bytes...]}  (bytes as runs [[fill,len]..]) *)
 EXTENDS P2PMsg, Json, IOUtils
 
-CONSTANT Tier           \* "q" (quick) or "t" (thorough)
+CONSTANT Tier           \* "q" (quick), "t" (thorough) or "p" (the pool only)
 
 Pool == JsonDeserialize(IOEnv.P2P_POOL)
 PoolTx    == {[raw |-> Pool.tx[i]] : i \in 1..Len(Pool.tx)}
@@ -90,7 +90,7 @@ Typ(l, s) ==
     [] l = "b" -> s % 2 = 1
     [] l = "O" -> <<TRUE>>
     [] l = "h" -> M(8333 + s)
-    [] l = "S" -> Lit(<<47, 65 + (s % 26), 47>>)
+    [] l = "S" -> Lit(<<47, 65 + (s % 26), 97 + ((s \div 26) % 26), 47>>)
     [] l = "#" -> Cat(Run(s % 256, 1), Run((s + 100) % 256, 31))
     [] l = "@" -> V4(10, 0, s % 256, 1)
     [] l = "A" -> [services |-> <<M(s + 1), 0, M(s), 0>>,
@@ -169,5 +169,10 @@ AlertCases == {[name |-> "alert", f |-> <<Pack("alert_info", g), s>>, inner |-> 
 CasesOf(m) == IF m = "alert" THEN SetToSeq(AlertCases)
               ELSE LET s == SetToSeq(Cases(m)) IN [j \in 1..Len(s) |-> [name |-> m, f |-> s[j], inner |-> <<>>]]
 \* "alert_info" is not a message; its cases exercise the model (Parse . Pack) only
-CaseSeq == FoldLeft(LAMBDA acc, m : acc \o CasesOf(m), <<>>, Append(MsgOrder, "alert_info"))
+\* tier "p": only the real transactions and blocks of the pool, each as a tx / block message (the spec
+\* parses and re-packs them: fidelity to real data; the harness takes their abstract form from this run)
+PoolCases == [i \in 1..Len(Pool.tx) |-> [name |-> "tx", f |-> <<[raw |-> Pool.tx[i]]>>, inner |-> <<>>]]
+             \o [i \in 1..Len(Pool.block) |-> [name |-> "block", f |-> <<[raw |-> Pool.block[i]]>>, inner |-> <<>>]]
+CaseSeq == IF Tier = "p" THEN PoolCases
+           ELSE FoldLeft(LAMBDA acc, m : acc \o CasesOf(m), <<>>, Append(MsgOrder, "alert_info"))
 =============================================================================
